@@ -36,6 +36,38 @@ CHECKS = {
                 technique="complete enumeration of n<=150 and all (N,W) with N<=10, W<=14 against definition-level index maps",
                 text="The property's quantifier is finite and is enumerated completely: compression round trips and closed-form index for n<=150, class partition for all 140 (N,W).",
                 note="trusted: reference maps written from the definition in refs.py"),
+    "C02": dict(engine=E1, cat="exploration", ref="§4 C02",
+                technique="exhaustive spectral-grid enumeration of (S, lambda, step configuration) through the real ADMM entry point, judged by a rho-independent KKT certificate",
+                text="Every covariance S=Q diag(e) Q^T over the eigenvalue alphabet {0.25,1,4} (+ rank-deficient and rescaled families) x 3 bases x 9 lambda forms x 4 step configurations for all (N,W) with NW<=4 (thorough NW<=12 plus five large shapes up to NW=60): each solve that stopped by its rule must satisfy the KKT/Toeplitz/SPD certificate computed from (S, lambda, Theta, tolerances) alone; the unconditional clause (always stops within budget) is a verdict on its sub-grid.",
+                note="trusted: the certificate derivation in DESIGN.md C02 (strict convexity => KKT = optimality), slack 1.5; finite grid, not the reals; cond(Theta)<=1e8 for the certificate"),
+    "C03": dict(engine=E1, cat="exploration", ref="§4 C03",
+                technique="exhaustive per-sensor scale grid (24 orders of magnitude) through the real optimisation phase + exhaustive covariance-floor boundaries + main-loop explorer monitor",
+                text="Every tuple of per-sensor variances over the scale alphabet x 4 correlation structures (incl. exactly singular and constant sensor) x 4 lambdas through the real optimisation phase: finite, exactly symmetric, Cholesky-PD MRF with a finite, correct stored log-determinant; eps clause on every entry boundary; every MRF and float field of enumerated main-loop runs incl. data with sensor variances 1e-12..1e12.",
+                note="trusted: numpy Cholesky as PD oracle; singleton clusters under the unbiased estimator scoped out (DESIGN.md C03c)"),
+    "C05": dict(engine=E1, cat="exploration", ref="§4 C05",
+                technique="exhaustive kernel grid (NW 1..200, log-determinants -3000..3000, all small mean/point tuples) against a Cholesky log-density, interpreted and JIT, + main-loop explorer monitor",
+                text="Likelihood table and per-point functions on synthetic models over the grid, in both execution modes, vs an independent Cholesky log-density (1e-10 relative to the summed magnitudes, must be finite); every round's table at the labelling step and the result's per-point values on enumerated runs.",
+                note="trusted: reference log-density; grid is finite"),
+    "C06": dict(engine=E2, cat="model_checking", ref="§4 C06",
+                technique="main-loop explorer (all initial labellings x limits x donor scripts, both front ends) with a result-only accounting monitor; known-finding classification by signature",
+                text="On every enumerated completed run of both front ends (beta 0 / moderate / huge / per-pair; limit 1,2,L; runs ending with an empty cluster) the result's cost, per-point list, sums, means, medians and per-cluster statistics are mutually consistent. Joint runs whose cost prices boundary pairs exactly as the all-pairs objective are the listed known finding.",
+                note="trusted: reference Gaussian log-density for the per-cluster clause; runs with NaN values (singleton cluster, unbiased) skipped and counted"),
+    "C07": dict(engine=E2, cat="model_checking", ref="§4 C07",
+                technique="exhaustive enumeration of the mask helper (5460 length tuples, behavioural cross-check through the real kernel) + main-loop explorer on joint drivers with a within-series-objective monitor + single-vs-joint differential",
+                text="Mask helper complete over its bound; joint front end on boundary-regime drivers for every initial labelling: labelling minimises / cost equals assignment + within-series switching cost, else classified (known finding only if it is exactly the all-pairs objective with the user's scalar reaching the labelling step); one-element joint == single front end bitwise.",
+                note="trusted: reference DP; the no-mixing clause is decided by C10"),
+    "C08": dict(engine=E1, cat="exploration", ref="§4 C08",
+                technique="exhaustive enumeration of cluster-size vectors x spread orderings x layouts x donor draws against a reference repopulation model, plus fed-back histories",
+                text="Every size vector in {0..3m+2}^K for K<=4 (thorough K<=5) x every strict spread ordering + ties x two layouts x donor draws; outcome must be the reference's (error with untouched input, or conservation/donor/recipient/bystander invariants and partition), also under 3-fold repeated application.",
+                note="trusted: reading of the donor-shortage clause (DESIGN.md C08); larger random size vectors named in the quantifier are not sampled (this family enumerates)"),
+    "C16": dict(engine=E1, cat="exploration", ref="§4 C16",
+                technique="exhaustive enumeration of label sequences (length<=8, K<=3) and threshold-boundary MRFs at function level + scale family + main-loop explorer monitor",
+                text="BIC function on synthetic states for every label sequence up to length 8, MRF entries on/around the 2e-5 threshold, determinants outside the double range; reported BIC of every enumerated run vs recomputation from the final state.",
+                note="trusted: reference formula in refs.py"),
+    "C17": dict(engine=E1, cat="exploration", ref="§4 C17",
+                technique="exhaustive enumeration of labellings (T'<=6/8, K in {2,3}) x per-sensor translations at function level + main-loop explorer monitor; known-finding classification by signature",
+                text="Every labelling into non-empty clusters on integer data sets and their per-sensor translations vs the definition with the per-column centroid; converged enumerated runs. Mismatches equal to the scalar-centre formula are the listed known finding; anything else is a violation.",
+                note="trusted: reference formula; known finding ch-scalar-centre is suppressed by signature only"),
 }
 
 NOT_YET = "check not built yet in this session (work in progress; see DESIGN.md)"
